@@ -144,8 +144,54 @@ fn join_mode(wseed: u64) {
     println!("ok join workload_seed={} chunks={} prefix={}", wseed, chunks, prefix);
 }
 
+/// C07 (unsafe Rust intrinsics): the pure build's SSE2 / SSE4.1 / AVX2 kernels interpreted by Miri, which checks
+/// every vector load and store for bounds, alignment requirements and initialisation. The level is forced through
+/// the detect() hook (it sits before the cfg(miri) short-circuit). Results must also equal the portable level.
+fn intrinsics_mode(wseed: u64) {
+    use blake3::platform::Platform;
+    let mut s = wseed;
+    let levels: Vec<(&str, Option<Platform>)> = vec![("sse2", Some(Platform::SSE2)), ("sse41", Some(Platform::SSE41)), ("avx2", Some(Platform::AVX2))]; // detection is compiled out under Miri: name the variants
+    // lengths that exercise full SIMD batches and every remainder path of hash_many, plus partial chunks
+    let chunks = [1usize, 2, 3, 4, 5, 7, 8, 9, 11, 13][(splitmix(&mut s) % 10) as usize];
+    let tail = [0usize, 1, 63, 64, 65, 1023][(splitmix(&mut s) % 6) as usize];
+    let m = bytes(wseed, chunks * 1024 + tail);
+    let key: [u8; 32] = bytes(wseed ^ 3, 32).try_into().unwrap();
+    blake3::verif::set_platform(Some(Platform::portable()));
+    let want = {
+        let mut h = blake3::Hasher::new_keyed(&key);
+        h.update(&m);
+        let mut x = [0u8; 200];
+        let mut r = h.finalize_xof();
+        r.set_position(61);
+        r.fill(&mut x);
+        (h.finalize(), x)
+    };
+    let mut ran = 0;
+    for (name, p) in levels {
+        let Some(p) = p else { continue };
+        blake3::verif::set_platform(Some(p));
+        let mut h = blake3::Hasher::new_keyed(&key);
+        let cut = (splitmix(&mut s) % (m.len() as u64 + 1)) as usize;
+        h.update(&m[..cut]);
+        h.update(&m[cut..]);
+        let mut x = [0u8; 200];
+        let mut r = h.finalize_xof();
+        r.set_position(61);
+        r.fill(&mut x);
+        assert!(h.finalize() == want.0 && x == want.1, "LEVEL-DIVERGENCE level={name} workload_seed={wseed}");
+        assert_eq!(blake3::keyed_hash(&key, &m), want.0, "LEVEL-DIVERGENCE one-shot level={name} workload_seed={wseed}");
+        ran += 1;
+    }
+    blake3::verif::set_platform(None);
+    println!("ok intrinsics workload_seed={} chunks={} tail={} levels_run={}", wseed, chunks, tail, ran);
+}
+
 fn main() {
     let args: Vec<String> = std::env::args().collect();
+    if args.get(3).map(|s| s.as_str()) == Some("intrinsics") {
+        intrinsics_mode(args.get(1).and_then(|s| s.parse().ok()).unwrap_or(1));
+        return;
+    }
     let wseed: u64 = args.get(1).and_then(|s| s.parse().ok()).unwrap_or(1);
     let threads: usize = args.get(2).and_then(|s| s.parse().ok()).unwrap_or(3);
     if args.get(3).map(|s| s.as_str()) == Some("join") {
